@@ -196,7 +196,7 @@ def get_smallmij(vi: np.ndarray, vj: np.ndarray, W: np.ndarray, alpha_vec: np.nd
     """
     prod = np.matmul(W, vj - vi)
     prod[prod < 0] = 0
-    smallmij = (prod / alpha_vec).min()
+    smallmij = (prod / alpha_vec.flatten()).min()
 
     return smallmij
 
